@@ -49,18 +49,19 @@ type Exec struct {
 	evAt     int
 	stop     bool
 
-	strangerSock  *sim.UDPSock
+	strangerSock *sim.UDPSock
 	// Obs is the normalised per-client observation log (relational form of C04)
-	Obs      map[int][]string
-	SleptFor map[int]int // step index -> whole seconds actually slept
-	Aborted  bool        // the case was ended without verdict (documented tolerance band)
-	opStart       time.Time
-	slept         bool // virtual time advanced inside the current step (slow callback)
-	lastToken     []byte
-	lastTokenAt   time.Time
-	lastTokenPort int
-	lastTokenStream bool
-	nonceFresh, nonceStale bool // state of the client's nonce at the last authenticated request
+	Obs                    map[int][]string
+	SleptFor               map[int]int // step index -> whole seconds actually slept
+	Aborted                bool        // the case was ended without verdict (documented tolerance band)
+	opStart                time.Time
+	slept                  bool // virtual time advanced inside the current step (slow callback)
+	lastToken              []byte
+	lastTokenAt            time.Time
+	lastTokenPort          int
+	lastTokenStream        bool
+	nonceFresh, nonceStale bool          // state of the client's nonce at the last authenticated request
+	tieRestore             time.Duration // sub-second offset to return to after a deliberate tie (-1: none)
 }
 
 func (x *Exec) fail(props []string, kind, f string, a ...any) {
@@ -69,8 +70,18 @@ func (x *Exec) fail(props []string, kind, f string, a ...any) {
 	x.w.tracef("FINDING %v %s: %s", props, kind, fmt.Sprintf(f, a...))
 }
 
-// tick advances the tie-free clock by one phase unit.
-func (x *Exec) tick() { time.Sleep(100 * time.Microsecond) }
+// tick advances the clock by 100 µs: every harness action gets a sub-second offset of its own,
+// so that (sleeps being whole seconds) no action ever coincides with an expiry armed by another
+// one. After a deliberate tie (tieWith) the clock sits on the offset of an older action; the
+// next tick first moves on to the offset that was current before the detour.
+func (x *Exec) tick() {
+	if x.tieRestore >= 0 {
+		now := time.Duration(time.Now().UnixNano()) % time.Second
+		time.Sleep((x.tieRestore - now + time.Second) % time.Second)
+		x.tieRestore = -1
+	}
+	time.Sleep(100 * time.Microsecond)
+}
 
 func (x *Exec) settle() { synctest.Wait() }
 
@@ -134,10 +145,16 @@ func (x *Exec) observe() *Obs {
 		}
 		data, _ := c.Conn.ReadAvailable()
 		c.rbuf = append(c.rbuf, data...)
+		for round := 0; x.w.cfg.StreamWindow > 0 && len(data) > 0 && round < 4096; round++ {
+			// flow control: taking bytes out lets a blocked writer go on
+			synctest.Wait()
+			data, _ = c.Conn.ReadAvailable()
+			c.rbuf = append(c.rbuf, data...)
+		}
 		for {
 			k, size, complete := ref.NextFrame(c.rbuf)
 			if k == ref.FrameInvalid {
-				x.fail([]string{"C09", "C10", "C19"}, "server-sent-garbage", "the server wrote bytes that cannot begin a TURN frame on client %d's control connection: %x", c.Idx, c.rbuf[:min(len(c.rbuf), 16)])
+				x.fail([]string{"C09", "C10", "C19", "C05"}, "server-sent-garbage", "the server wrote bytes that cannot begin a TURN frame on client %d's control connection: %x", c.Idx, c.rbuf[:min(len(c.rbuf), 16)])
 				c.rbuf = nil
 
 				break
